@@ -2,6 +2,7 @@ package vh
 
 import (
 	"fmt"
+	"runtime"
 	"strings"
 	"sync"
 	"sync/atomic"
@@ -13,6 +14,8 @@ import (
 // C15 - a generator can be shared by concurrently running checks (binary built with -race).
 
 type C15Case struct {
+	Derive  bool     `json:"derive,omitempty"` // the checks derive generators (base.Filter(p)) from a shared base of Chain chained Filters
+	Chain   int      `json:"chain,omitempty"`
 	Spec    *GenSpec `json:"spec"`
 	P       int      `json:"p"`                 // concurrent checks
 	Strings []int    `json:"strings,omitempty"` // per check: call String() before draw number k (-1: never)
@@ -68,6 +71,12 @@ func genLazySpec(dt *drv.T, c *Ctx) *GenSpec {
 }
 
 func (c15) Gen(dt *drv.T, c *Ctx) any {
+	if chance(dt, "derive", 8) {
+		// every check derives a generator of its own from one shared base (three chained Filters) inside its property,
+		// at overlapping times, and draws from that
+		return &C15Case{Derive: true, Spec: &GenSpec{K: "bool"}, P: drv.IntRange(2, 8).Draw(dt, "p"), Seed: drv.Uint64Range(1, 1<<40).Draw(dt, "seed"),
+			Checks: drv.IntRange(2, 20).Draw(dt, "checks"), Draws: drv.IntRange(1, 3).Draw(dt, "draws"), Chain: drv.IntRange(1, 7).Draw(dt, "chain")}
+	}
 	cs := &C15Case{Spec: genLazySpec(dt, c)}
 	cs.P = drv.IntRange(2, 8).Draw(dt, "p")
 	for i := 0; i < cs.P; i++ {
@@ -112,8 +121,90 @@ func uniquify(s *GenSpec, tag string) *GenSpec {
 	return &cp
 }
 
-func (c15) Run(c *Ctx, csAny any) Outcome {
+// runDerive: P concurrent checks, each deriving base.Filter(own predicate) inside its property.
+func (c15) runDerive(c *Ctx, cs *C15Case) Outcome {
+	out := Outcome{NonTrivial: true, Classes: []string{"checks-derive-generators-from-a-shared-base", fmt.Sprintf("checks-in-parallel-%d", cs.P)}}
+	dir := EnterCaseDir()
+	defer LeaveCaseDir(dir)
+	rw := getRaceWatch()
+	rw.New()
+	base := rapid.IntRange(0, 1<<20)
+	for k := 0; k < cs.Chain; k++ {
+		m := []int{3, 5, 7, 11, 13, 17, 19}[k%7]
+		base = base.Filter(func(v int) bool { return v%m != 1 })
+	}
+	applyCfg(CheckCfg{Seed: cs.Seed, Checks: cs.Checks, ShrinkNS: 0, NoFailFile: true})
+	defer resetFlags()
+	runOne := func(i int, gate func()) (log []string) {
+		tb := NewFakeTB("TestC15")
+		func() {
+			defer func() {
+				if r := recover(); r != nil {
+					if _, ok := r.(tbStop); !ok {
+						log = append(log, fmt.Sprintf("PANIC %v", r))
+					}
+				}
+			}()
+			rapid.Check(tb, func(t *rapid.T) {
+				g := base.Filter(func(v int) bool { return v%4 == i%4 })
+				gate()
+				for k := 0; k < cs.Draws; k++ {
+					v := g.Draw(t, "v")
+					if v%4 != i%4 {
+						log = append(log, fmt.Sprintf("BREACH %d", v))
+					}
+					log = append(log, fmt.Sprint(v))
+				}
+			})
+		}()
+		if _, failed, _, _ := tb.Snapshot(); failed {
+			log = append(log, "FAILED")
+		}
+		return
+	}
+	logs := make([][]string, cs.P)
+	start := make(chan struct{})
+	var wg sync.WaitGroup
+	for i := 0; i < cs.P; i++ {
+		wg.Add(1)
+		go func(i int) {
+			defer wg.Done()
+			<-start
+			logs[i] = runOne(i, runtime.Gosched)
+		}(i)
+	}
+	close(start)
+	wg.Wait()
+	if rep := rw.New(); rep != "" {
+		key, lib, sum := raceKey(rep)
+		if lib {
+			out.Viol = violf("C15:"+key, "data race: %s", sum)
+		} else {
+			out.Viol = violf("C15:race-outside-library", "data race without a library frame (harness?): %s", sum)
+		}
+		return out
+	}
+	for i := range logs {
+		for _, l := range logs[i] {
+			if strings.HasPrefix(l, "BREACH") || strings.HasPrefix(l, "PANIC") {
+				out.Viol = violf("C15:derived-generator-breach", "check %d of %d (generators derived from a shared base of %d chained Filters): %s", i, cs.P, cs.Chain, l)
+				return out
+			}
+		}
+		solo := runOne(i, func() {})
+		if strings.Join(logs[i], "\n") != strings.Join(solo, "\n") {
+			out.Viol = violf("C15:values-differ-from-solo-run", "check %d of %d deriving base.Filter(p) from a shared base drew %.300v; alone with the same seed it draws %.300v", i, cs.P, logs[i], solo)
+			return out
+		}
+	}
+	return out
+}
+
+func (p c15) Run(c *Ctx, csAny any) Outcome {
 	cs := csAny.(*C15Case)
+	if cs.Derive {
+		return p.runDerive(c, cs)
+	}
 	out := Outcome{}
 	dir := EnterCaseDir()
 	defer LeaveCaseDir(dir)
